@@ -130,6 +130,7 @@ Section WithFacts.
   Definition rename_step (x : ctx) (ns : nstate) (rsch : rschema) (field : key) : res nstate :=
     let au := c_allow_unknown (x_cfg x) in
     match assoc_get field rsch with
+    | Some None => Raise SchemaRuleTypeError "__normalize_rename_fields"   (* no rules set resolved: the sub-document does not fit *)
     | Some rs =>
         do has <- rs_has "_normalize_rename" rs "rename";
         do ns1 <- (if has then
@@ -396,18 +397,20 @@ Section WithFacts.
       let cfg2 := set_purge_unknown cfg1 (truthy (getd "purge_unknown" (VBool (c_purge_unknown (x_cfg x))))) in
       let cfg3 := set_require_all cfg2 (truthy (getd "require_all" (VBool (c_require_all (x_cfg x))))) in
       (* the child resolves a schema given by name; anything that is not a mapping fails in .copy() *)
-      do schd <- match resolve_schema (x_cfg x) sch with
-                 | Some (VDict s) => Ok s
-                 | _ => Raise AttributeError "__normalize_mapping"
-                 end;
-      let cx := nchild x (n_map ns) cfg3 schd d [field] [field; KStr "schema"] in
-      match childn cx with
-      | Ok (result, ces) =>
-          let ns1 := {| n_map := assoc_set field (VDict result) (n_map ns); n_errs := n_errs ns |} in
-          Ok (match ces with [] => ns1 | _ => nadd ns1 ces end)
-      | Raise SchemaRuleTypeError _ => Ok ns        (* except _SchemaRuleTypeError: pass *)
-      | Raise e s => Raise e s
-      | OutOfFuel => OutOfFuel
+      (* a name that is not in the schema registry: _SchemaRuleTypeError in the child, ignored by the container dispatch *)
+      match sch, resolve_schema (x_cfg x) sch with
+      | _, Some (VDict schd) =>
+          let cx := nchild x (n_map ns) cfg3 schd d [field] [field; KStr "schema"] in
+          match childn cx with
+          | Ok (result, ces) =>
+              let ns1 := {| n_map := assoc_set field (VDict result) (n_map ns); n_errs := n_errs ns |} in
+              Ok (match ces with [] => ns1 | _ => nadd ns1 ces end)
+          | Raise SchemaRuleTypeError _ => Ok ns        (* except _SchemaRuleTypeError: pass *)
+          | Raise e s => Raise e s
+          | OutOfFuel => OutOfFuel
+          end
+      | VStr _, None => Ok ns
+      | _, _ => Raise AttributeError "__normalize_mapping"
       end.
 
     Definition dict_values (d : dict) : list value := map snd d.
@@ -415,12 +418,26 @@ Section WithFacts.
     Definition norm_sequence_schema (x : ctx) (ns : nstate) (field : key) (l : list value) (srules : value)
       : res nstate :=
       let doc := enumerate l in
+      (* a name that is not the name of a rules set is looked up among the schemas *)
+      let srules :=
+        match srules with
+        | VStr _ =>
+            match resolve_rules_set (x_cfg x) srules with
+            | Some _ => srules
+            | None => match resolve_schema (x_cfg x) srules with Some d => d | None => VNone end
+            end
+        | _ => srules
+        end in
       let cx := nchild x (n_map ns) (x_cfg x) (map (fun kv => (fst kv, srules)) doc) doc
                        [field] [field; KStr "schema"] in
-      do r <- childn cx;
-      let '(result, ces) := r in
-      let ns1 := {| n_map := assoc_set field (VList (dict_values result)) (n_map ns); n_errs := n_errs ns |} in
-      Ok (bubble x ns1 "normalize_sequence_per_schema" ces).
+      match childn cx with
+      | Ok (result, ces) =>
+          let ns1 := {| n_map := assoc_set field (VList (dict_values result)) (n_map ns); n_errs := n_errs ns |} in
+          Ok (bubble x ns1 "normalize_sequence_per_schema" ces)
+      | Raise SchemaRuleTypeError _ => Ok ns        (* except _SchemaRuleTypeError: pass *)
+      | Raise e s => Raise e s
+      | OutOfFuel => OutOfFuel
+      end.
 
     Definition norm_sequence_items (x : ctx) (ns : nstate) (field : key) (l : list value) (items : value)
       : res nstate :=
